@@ -40,6 +40,7 @@ class Kernel(object):
         self.read_limit = None
         self.wait_queue = []
         self.last_created = []
+        self.spawning = None
 
     def lowest(self):
         n = 0
@@ -53,7 +54,7 @@ class Kernel(object):
         self.pipe_calls += 1
         pid = self.npipes
         self.npipes += 1
-        self.pipes[pid] = {'buf': bytearray(), 'writer_alive': True}
+        self.pipes[pid] = {'buf': bytearray(), 'writer_alive': True, 'owner': self.spawning}
         r = self.lowest()
         self.fds[r] = ('r', pid)
         w = self.lowest()
@@ -248,7 +249,9 @@ class Seam(object):
             k.pipe_fail_at = outcome[1] if isinstance(outcome, tuple) else None
             k.fork_fail = (outcome == 'forkfail')
             k.last_created = []
+            k.spawning = p
             proc.spawn()
+            k.spawning = None
             k.pipe_fail_at = None
             k.fork_fail = False
             if proc.pid:
@@ -319,8 +322,23 @@ class Seam(object):
         except OSError:
             return 0
 
+    def check_ownership(self):
+        """The C07 ownership invariant judged on the implementation itself: every key
+        of p.dispatchers is an open pipe end created for p (hence key sets are disjoint)."""
+        k = self.kernel
+        for i, proc in enumerate(self.procs):
+            for fd in proc.dispatchers:
+                ent = k.fds.get(fd)
+                if ent is None or ent[0] not in ('r', 'w') or k.pipes[ent[1]]['owner'] != i:
+                    raise HarnessFailure('ownership violated: proc%d.dispatchers has descriptor %d which is %r%s'
+                                         % (i, fd, ent, '' if ent is None or ent[1] is None else
+                                            ' created for proc%r' % k.pipes[ent[1]]['owner']))
+            if not proc.pid and proc.dispatchers:
+                raise HarnessFailure('proc%d has no child but %d dispatchers' % (i, len(proc.dispatchers)))
+
     def step_ser(self):
         k = self.kernel
+        self.check_ownership()
         out = [sum(1 << fd for fd in k.fds), len(self.events)]
         for i, proc in enumerate(self.procs):
             out += [proc.pid, len(proc.dispatchers)]
